@@ -139,4 +139,459 @@ theorem doubleStack_resume_panics_composed :
     (go (conf .white 4 (.friendly (some .doubleStack)) true) dsPanicEvs).b.moves.length = 4 := by
   decide +kernel
 
+/-! ## no thinker goroutine panics on the tree as it is (`guard = true`), except through the searcher or the rule's script -/
+
+/-- **the exception, exactly**: the FPA rule's own code (`LegalMove`, `GetMove` of the variant) answers on every view,
+every move and every state of its notes.  `center` has it; `doubleStack` has not (`dir()` on unset notes: the open
+finding `C07-fpa-resume-panic`, reachable: `doubleStack_resume_panics_composed`). -/
+def VariantTotal (var : Variant) : Prop :=
+  (∀ r v m, ∃ x, legalMove var r v m = .ok x) ∧ (∀ r v, ∃ y, FPA.getMove var r v = .ok y)
+
+theorem variantTotal_center : VariantTotal .center := by
+  refine ⟨fun r v m => ⟨_, rfl⟩, fun r v => ?_⟩
+  unfold FPA.getMove
+  dsimp only
+  split <;> exact ⟨_, rfl⟩
+
+/-- the double-stack rule is not total: with fresh notes its ply-4 script calls `dir(0, 0, 0, 0)` -/
+theorem not_variantTotal_doubleStack : ¬ VariantTotal .doubleStack := by
+  intro h
+  obtain ⟨y, hy⟩ := h.2 {} { size := 4, ply := 4, empty := fun _ _ => true }
+  have h4 : FPA.getMove .doubleStack {} { size := 4, ply := 4, empty := fun _ _ => true } =
+      .error (.panic "bad dir() call") := rfl
+  rw [h4] at hy
+  cases hy
+
+/-- the variant of the installed rule (`none`: no rule; `Taktician` has none) -/
+def confVariant (c : Compose.Conf) : Option Variant :=
+  match c.who with
+  | .friendly v => v
+  | .taktician _ => none
+
+theorem fpaCheck_var {fpa f' : Option (Variant × Rule)} {g : GameRec} {p : Pos} {rej : Option Msg}
+    (h : fpaCheck fpa g p = .ok (f', rej)) : f'.map (·.1) = fpa.map (·.1) := by
+  cases fpa with
+  | none =>
+    rw [fpaCheck_none] at h
+    injection h with h
+    rw [← (Prod.mk.inj h).1]
+  | some vr =>
+    obtain ⟨var, r⟩ := vr
+    rw [fpaCheck_some] at h
+    split at h
+    · cases h
+    · injection h with h; rw [← (Prod.mk.inj h).1]; rfl
+    · split at h
+      · cases h
+      · split at h
+        · cases h
+        · injection h with h; rw [← (Prod.mk.inj h).1]; rfl
+
+theorem friendly_var {fpa f' : Option (Variant × Rule)} {g : GameRec} {p : Pos} {o : CheckOracle} {a : Action}
+    (h : Glue.friendlyGetMove fpa g p o = .ok (f', a)) : f'.map (·.1) = fpa.map (·.1) := by
+  rw [Tak.Glue.friendly_cases] at h
+  cases hc : fpaCheck fpa g p with
+  | error e => rw [hc] at h; cases h
+  | ok v =>
+    obtain ⟨f1, rej⟩ := v
+    have hv := fpaCheck_var hc
+    rw [hc] at h
+    cases rej with
+    | some msg =>
+      injection h with h; rw [← (Prod.mk.inj h).1]; exact hv
+    | none =>
+      dsimp only at h
+      split at h
+      · injection h with h; rw [← (Prod.mk.inj h).1]; exact hv
+      · split at h
+        · cases h
+        · injection h with h; rw [← (Prod.mk.inj h).1]; exact hv
+        · split at h
+          · cases h
+          · injection h with h; rw [← (Prod.mk.inj h).1]; exact hv
+
+theorem glueOn_var {c : Compose.Conf} {fpa f' : Option (Variant × Rule)} {ps : List Pos} {ms : List Move} {p : Pos}
+    {mine : Int} {chk : CheckOracle} {a : Action}
+    (h : glueOn c fpa ps ms p mine chk = .ok (f', a)) : f'.map (·.1) = fpa.map (·.1) := by
+  unfold glueOn at h
+  split at h
+  · exact friendly_var h
+  · injection h with h; rw [← (Prod.mk.inj h).1]
+
+/-- the rule object keeps its variant through the game -/
+def FpaOK (c : Compose.Conf) (s : Compose.St σ χ) : Prop := s.fpa.map (·.1) = confVariant c
+
+theorem fpaOK_start (c : Compose.Conf) (secs : Int) (eng0 : σ) : FpaOK c (Compose.start c secs eng0 : Compose.St σ χ) := by
+  unfold FpaOK confVariant Compose.start
+  dsimp only
+  cases c.who with
+  | friendly v => cases v <;> rfl
+  | taktician _ => rfl
+
+theorem fpaOK_step (c : Compose.Conf) (S : Searcher σ χ) (s : Compose.St σ χ) (e : Compose.Ev χ) (h : FpaOK c s) :
+    FpaOK c (Compose.step c S s e) := by
+  unfold Compose.step
+  split
+  · exact h
+  · cases e with
+    | deliver bits parsed => exact h
+    | close => exact h
+    | timerFires => exact h
+    | enter k chk =>
+      dsimp only
+      unfold Compose.enter
+      split
+      · exact h
+      · split
+        · exact h
+        · split
+          · exact h
+          · split
+            · exact h
+            · split
+              · exact h
+              · rename_i hg
+                unfold FpaOK
+                dsimp only
+                rw [glueOn_var hg]
+                exact h
+    | leave k x =>
+      dsimp only
+      unfold Compose.leave
+      split
+      · exact h
+      · split
+        · exact h
+        · split
+          · exact h
+          · split
+            · exact h
+            · split
+              · split <;> exact h
+              · exact h
+              · exact h
+              · split <;> exact h
+
+/-- the call of the CURRENT thinker runs through (`current_thinker_total` at the level of one state) -/
+theorem glueCall_cur_ok (c : Compose.Conf) {b : Bot.St} {p0 : Pos} (hs : SInv c.bot b)
+    (hP : PInv (fun p => p.cfg.size = c.size) p0 b) (hp0 : p0.move = 0) (hnc : ¬ b.crashed)
+    (fpa : Option (Variant × Rule)) (chk : CheckOracle)
+    (hrule : C20.RuleTotal fpa (recOf c b) b.cur.pos) (hchk : asksPrev chk = true → b.cur.pos.move > 0) :
+    ∃ x, glueCall c fpa b b.cur chk = .ok x := by
+  have hshape := hs.core.shape hnc
+  have hmem := hP.cmem hnc
+  have hlast := hP.last hnc
+  have hlen : b.cur.pos.move > 0 → 2 ≤ b.positions.length := by
+    intro hm
+    match hps : b.positions with
+    | [] => rw [hps] at hmem; cases hmem
+    | [x] =>
+      rw [hps] at hmem hlast
+      simp only [List.getLast?_singleton, Option.some.injEq] at hlast
+      simp only [List.mem_singleton] at hmem
+      rw [hmem, hlast, hp0] at hm
+      exact absurd hm (by decide)
+    | _ :: _ :: _ => simp
+  unfold glueCall glueOn
+  split
+  · apply friendly_total_of _ _ _ _ hrule
+    · intro hm
+      have := hlen hm
+      show 2 ≤ b.positions.length ∧ 1 ≤ b.moves.length
+      omega
+    · intro ha
+      exact hlen (hchk ha)
+  · exact ⟨_, rfl⟩
+
+/-- **what is asked of the check engine's verdicts** along an event list: a win in one (`v ≥ WinThreshold` found at depth
+≤ 1, which makes `waitUndo` read `f.g.Positions[len-2]`) is only claimed for a position beyond ply 0.  The real check
+engine satisfies it (`checkOracle_sane`: no road and no full board at ply 0 + 1). -/
+def ChkOK (c : Compose.Conf) (S : Searcher σ χ) : Compose.St σ χ → List (Compose.Ev χ) → Prop
+  | _, [] => True
+  | s, e :: es =>
+    (match e with
+     | .enter k chk => ∀ t, thinkerAt s.b k = some t → asksPrev chk = true → t.pos.move > 0
+     | _ => True) ∧ ChkOK c S (Compose.step c S s e) es
+
+/-- verdicts that never claim a win in one are sane -/
+theorem chkOK_of_noAsk (c : Compose.Conf) (S : Searcher σ χ) : ∀ (evs : List (Compose.Ev χ)) (s : Compose.St σ χ),
+    evs.all (fun e => match e with | .enter _ chk => !asksPrev chk | _ => true) = true → ChkOK c S s evs
+  | [], _, _ => trivial
+  | e :: es, s, h => by
+    simp only [List.all_cons, Bool.and_eq_true] at h
+    refine ⟨?_, chkOK_of_noAsk c S es _ h.2⟩
+    cases e with
+    | enter k chk =>
+      intro t _ ha
+      have h1 := h.1
+      simp only [Bool.not_eq_true'] at h1
+      rw [h1] at ha
+      cases ha
+    | _ => trivial
+
+/-- a thinker goroutine is lost only to an error of the searching player, raised by the call in progress -/
+def DeadBySearch (S : Searcher σ χ) (s : Compose.St σ χ) : Prop :=
+  ∀ e, s.dead = some e → ∃ call x lim fl, s.inside = some call ∧ call.act = .think lim fl ∧
+    S.run x call.pos s.eng = .error e
+
+/-- reachable states -/
+def Reach (c : Compose.Conf) (S : Searcher σ χ) (secs : Int) (eng0 : σ) (s : Compose.St σ χ) : Prop :=
+  ∃ pre, s = Compose.run c S (Compose.start c secs eng0) pre
+
+theorem reach_step {c : Compose.Conf} {S : Searcher σ χ} {secs : Int} {eng0 : σ} {s : Compose.St σ χ}
+    (h : Reach c S secs eng0 s) (e : Compose.Ev χ) : Reach c S secs eng0 (Compose.step c S s e) := by
+  obtain ⟨pre, rfl⟩ := h
+  exact ⟨pre ++ [e], by simp [Compose.run, List.foldl_append]⟩
+
+theorem cancInv_startBot (c : Compose.Conf) (secs : Int) (hsize : 3 ≤ c.size ∧ c.size ≤ 8) : CancInv (startBot c secs) := by
+  obtain ⟨p0, hp⟩ := startBot_ok c hsize
+  unfold startBot
+  rw [hp]
+  exact ⟨(fun _ h => by cases h), fun h => absurd rfl h⟩
+
+/-- under the guard, with a rule whose code is total and sane check verdicts, `enter` never kills a thinker -/
+theorem enter_dead (c : Compose.Conf) (hguard : c.guard = true) (hfix : c.bot.fixed = true)
+    (hsize : 3 ≤ c.size ∧ c.size ≤ 8) (hvar : ∀ var, confVariant c = some var → VariantTotal var)
+    (S : Searcher σ χ) (secs : Int) (eng0 : σ) {s : Compose.St σ χ} (hR : Reach c S secs eng0 s) (hF : FpaOK c s)
+    (k : Nat) (chk : CheckOracle)
+    (hchk : ∀ t, thinkerAt s.b k = some t → asksPrev chk = true → t.pos.move > 0) :
+    (Compose.enter c s k chk).dead = s.dead := by
+  obtain ⟨pre, rfl⟩ := hR
+  obtain ⟨hs, _, _⟩ := composed_loop_facts c hfix hsize S secs eng0 pre
+  obtain ⟨p0, hp0, hP0⟩ := pinv_startBot c secs hsize
+  have hA : ∀ (p : Pos) (m : Move) (q : Pos), p.cfg.size = c.size → p.apply c.bot.basis m = .ok q → q.cfg.size = c.size :=
+    fun p m q hp ha => by rw [apply_cfg ha]; exact hp
+  obtain ⟨bevs, hb⟩ := compose_refines c S secs eng0 pre
+  have hP : PInv (fun p => p.cfg.size = c.size) p0 (Compose.run c S (Compose.start c secs eng0) pre).b := by
+    rw [hb]; exact pinv_run hA c.bot rfl hP0 bevs
+  have hC : CancInv (Compose.run c S (Compose.start c secs eng0) pre).b := by
+    rw [hb]; exact cancInv_run c.bot _ bevs (cancInv_startBot c secs hsize)
+  generalize Compose.run c S (Compose.start c secs eng0) pre = s at *
+  unfold Compose.enter
+  split
+  · rfl
+  · rename_i t ht
+    split
+    · rfl
+    · split
+      · rfl
+      · rename_i hng
+        have hlive : t.cancelled = false := by
+          rw [hguard] at hng
+          simpa using hng
+        obtain ⟨_, htc, hrun⟩ := live_thinker_is_current hC ht hlive
+        split
+        · rename_i hst
+          exact absurd hrun (by simpa using hst)
+        · split
+          · rename_i e hg
+            exfalso
+            have hrule : C20.RuleTotal s.fpa (recOf c s.b) s.b.cur.pos := by
+              intro var r hf
+              have hv : confVariant c = some var := by
+                unfold FpaOK at hF
+                rw [← hF, hf]; rfl
+              exact ⟨fun q m _ => (hvar var hv).1 r _ m, fun r' => (hvar var hv).2 r' _⟩
+            obtain ⟨x, hx⟩ := glueCall_cur_ok c hs hP hp0 (not_crashed_of_running hrun) s.fpa chk hrule
+              (fun ha => by rw [← htc]; exact hchk t ht ha)
+            rw [htc, hx] at hg
+            cases hg
+          · rfl
+
+theorem deadBySearch_step (c : Compose.Conf) (hguard : c.guard = true) (hfix : c.bot.fixed = true)
+    (hsize : 3 ≤ c.size ∧ c.size ≤ 8) (hvar : ∀ var, confVariant c = some var → VariantTotal var)
+    (S : Searcher σ χ) (secs : Int) (eng0 : σ) {s : Compose.St σ χ} (hR : Reach c S secs eng0 s) (hF : FpaOK c s)
+    (hD : DeadBySearch S s) (e : Compose.Ev χ) (hchk : ChkOK c S s [e]) : DeadBySearch S (Compose.step c S s e) := by
+  unfold Compose.step
+  split
+  · exact hD
+  · rename_i hdead
+    have hnone : s.dead = none := by
+      cases hd : s.dead with
+      | none => rfl
+      | some x => rw [hd] at hdead; exact absurd rfl hdead
+    cases e with
+    | deliver bits parsed => exact hD
+    | close => exact hD
+    | timerFires => exact hD
+    | enter k chk =>
+      dsimp only
+      intro e he
+      rw [enter_dead c hguard hfix hsize hvar S secs eng0 hR hF k chk hchk.1, hnone] at he
+      cases he
+    | leave k x =>
+      dsimp only
+      unfold Compose.leave
+      split
+      · exact hD
+      · rename_i call hin
+        split
+        · exact hD
+        · split
+          · exact hD
+          · split
+            · exact hD
+            · have hret : ∀ (xo : Option χ) (m : Move) (eng' : σ), DeadBySearch S (Compose.ret c s call xo m eng') := by
+                intro xo m eng' e he
+                have : s.dead = some e := he
+                rw [hnone] at this; cases this
+              split
+              · split
+                · exact hret _ _ _
+                · exact hD
+              · exact hret _ _ _
+              · exact hret _ _ _
+              · rename_i lim fl hact
+                split
+                · rename_i err hrun
+                  intro e he
+                  have he' : some err = some e := he
+                  injection he' with he'
+                  subst he'
+                  exact ⟨call, x, lim, fl, hin, hact, hrun⟩
+                · exact hret _ _ _
+
+theorem deadBySearch_run (c : Compose.Conf) (hguard : c.guard = true) (hfix : c.bot.fixed = true)
+    (hsize : 3 ≤ c.size ∧ c.size ≤ 8) (hvar : ∀ var, confVariant c = some var → VariantTotal var)
+    (S : Searcher σ χ) (secs : Int) (eng0 : σ) (evs : List (Compose.Ev χ)) :
+    ∀ (s : Compose.St σ χ), Reach c S secs eng0 s → FpaOK c s → DeadBySearch S s → ChkOK c S s evs →
+      DeadBySearch S (Compose.run c S s evs) := by
+  induction evs with
+  | nil => intro s _ _ hD _; exact hD
+  | cons e es ih =>
+    intro s hR hF hD hchk
+    exact ih (Compose.step c S s e) (reach_step hR e) (fpaOK_step c S s e hF)
+      (deadBySearch_step c hguard hfix hsize hvar S secs eng0 hR hF hD e ⟨hchk.1, trivial⟩) hchk.2
+
+/-- **`bot_dead_only_by_search`** — the tree as it is now (`guard = true`: /repo 20247d2).  For `Taktician`, `Friendly`
+without a rule or with a rule whose own code is total (`VariantTotal`: the centre rule; NOT double stack / cairn — the
+open finding `C07-fpa-resume-panic`), any searching player, any colour, size 3..8, clock and EVERY event list whose check
+verdicts are sane (`ChkOK`): if a thinker goroutine is ever lost (`dead = some e`), then `e` is an error **raised by the
+searching player itself** (`f.ai.GetMove` / `t.ai.GetMove`) in the call in progress, on the position that thinker was
+started on and the engine state the previous calls left.  No index panic on the record, no nil game, no rule panic:
+thinkers of finished invocations are all cancelled (`CancInv`) and return at the guard; the live one is the current
+thinker, whose position is still in the record (`current_thinker_total`). -/
+theorem bot_dead_only_by_search (c : Compose.Conf) (hguard : c.guard = true) (hfix : c.bot.fixed = true)
+    (hsize : 3 ≤ c.size ∧ c.size ≤ 8) (hvar : ∀ var, confVariant c = some var → VariantTotal var)
+    (S : Searcher σ χ) (secs : Int) (eng0 : σ) (evs : List (Compose.Ev χ))
+    (hchk : ChkOK c S (Compose.start c secs eng0) evs) :
+    DeadBySearch S (Compose.run c S (Compose.start c secs eng0) evs) :=
+  deadBySearch_run c hguard hfix hsize hvar S secs eng0 evs _ ⟨[], rfl⟩ (fpaOK_start c secs eng0)
+    (fun _ h => by cases h) hchk
+
+/-- **`bot_never_dead_guarded`** — with a searching player that answers on every `size`×`size` position from every state
+satisfying its invariant `G` (kept by every call), the composed system NEVER loses a thinker goroutine: for every event
+list with sane check verdicts, `dead = none`.  Together with `C07.bot_no_panic` (the protocol goroutine) this is C07's
+last clause — the bot process survives every interleaving — for the code as it is, with the one stated exception
+(`VariantTotal`: double stack / cairn on a resumed game). -/
+theorem bot_never_dead_guarded (c : Compose.Conf) (hguard : c.guard = true) (hfix : c.bot.fixed = true)
+    (hsize : 3 ≤ c.size ∧ c.size ≤ 8) (hvar : ∀ var, confVariant c = some var → VariantTotal var)
+    (S : Searcher σ χ) (G : σ → Prop)
+    (hS : ∀ x p e m e', p.cfg.size = c.size → G e → S.run x p e = .ok (m, e') → G e')
+    (hT : ∀ x p e, p.cfg.size = c.size → G e → ∃ r, S.run x p e = .ok r)
+    (secs : Int) (eng0 : σ) (h0 : G eng0) (evs : List (Compose.Ev χ))
+    (hchk : ChkOK c S (Compose.start c secs eng0) evs) :
+    (Compose.run c S (Compose.start c secs eng0) evs).dead = none := by
+  have hD := bot_dead_only_by_search c hguard hfix hsize hvar S secs eng0 evs hchk
+  obtain ⟨p0, _, hP⟩ := pinv_startBot c secs hsize
+  have hA : ∀ (p : Pos) (m : Move) (q : Pos), p.cfg.size = c.size → p.apply c.bot.basis m = .ok q → q.cfg.size = c.size :=
+    fun p m q hp ha => by rw [apply_cfg ha]; exact hp
+  have hz : ∀ (p q : Pos), p.cfg.size = c.size → p.apply c.bot.basis Bot.zeroMove ≠ .ok q :=
+    fun p q hp => zero_rejected c.bot.basis c.size hsize p q hp
+  obtain ⟨hC, hP'⟩ := cinv_run (A := fun p => p.cfg.size = c.size) hA hS hz _ hP (cinv_start c S G secs eng0 h0) evs
+  cases hd : (Compose.run c S (Compose.start c secs eng0) evs).dead with
+  | none => rfl
+  | some e =>
+    exfalso
+    obtain ⟨call, x, lim, fl, hin, _, hrun⟩ := hD e hd
+    obtain ⟨_, t, ht, hpos⟩ := hC.inside call hin
+    have hsz : call.pos.cfg.size = c.size := by
+      rw [← hpos]
+      have hmem : t ∈ thinkers (Compose.run c S (Compose.start c secs eng0) evs).b := List.mem_of_getElem? ht
+      unfold thinkers at hmem
+      simp only [List.mem_append, List.mem_singleton] at hmem
+      rcases hmem with hm | rfl
+      · exact hP'.old t hm
+      · exact hP'.cur
+    obtain ⟨r, hr⟩ := hT x call.pos _ hsz hC.eng
+    rw [hr] at hrun
+    cases hrun
+
+/-- the instance the correspondence runs: the stub searcher of the harness (it answers what the schedule says) -/
+theorem bot_never_dead_stub (c : Compose.Conf) (hguard : c.guard = true) (hfix : c.bot.fixed = true)
+    (hsize : 3 ≤ c.size ∧ c.size ≤ 8) (hvar : ∀ var, confVariant c = some var → VariantTotal var)
+    (secs : Int) (evs : List (Compose.Ev Move)) (hchk : ChkOK c stubSearcher (Compose.start c secs ()) evs) :
+    (Compose.run c stubSearcher (Compose.start c secs ()) evs).dead = none :=
+  bot_never_dead_guarded c hguard hfix hsize hvar stubSearcher (fun _ => True) (fun _ _ _ _ _ _ _ _ => trivial)
+    (fun x _ e _ _ => ⟨(x, e), rfl⟩) secs () trivial evs hchk
+
+/-- the full statement for the alpha-beta model as searching player: NOT proved.  Missing is exactly the totality of
+`Search.getMove` on `takGame` (`∃ r, getMove … = .ok r` from an `EngInv` state on a position of a 3..8 board): every
+search theorem of the framework (C04, C05, C16, `getMove_engOK`) is a partial-correctness statement (`Sat`: IF the model
+returns `.ok` …), none shows the model never takes one of its `.error` exits (`ai.stack[ply]` beyond `maxDepth`,
+`best[0]` on a position without legal move, `ttPut` on an empty table, `rand.Int63n`). -/
+def bot_never_dead_minimax_statement : Prop :=
+  ∀ (c : Compose.Conf), c.guard = true → c.bot.fixed = true → 3 ≤ c.size ∧ c.size ≤ 8 →
+    (∀ var, confVariant c = some var → VariantTotal var) →
+    ∀ (ev : Pos → Int) (sym : Pos → List Search.H) (scfg : Search.Cfg) (secs : Int)
+      (evs : List (Compose.Ev { o : Search.Oracle Move // Search.OrderOK o })),
+      ChkOK c (minimaxOK c.bot.basis ev sym scfg)
+        (Compose.start c secs (Search.Eng.new (Search.takGame c.bot.basis ev sym) scfg)) evs →
+      (Compose.run c (minimaxOK c.bot.basis ev sym scfg)
+        (Compose.start c secs (Search.Eng.new (Search.takGame c.bot.basis ev sym) scfg)) evs).dead = none
+
+/-- **`bot_never_dead_minimax_partial`** — what is proved of it: with the alpha-beta model as searching player, a lost
+thinker goroutine can only be an `.error` exit of `Search.getMove` itself, taken on the position the current call was
+handed (board size as configured) from an engine state satisfying `EngInv`.  Nothing in `bot.go`, `friendly.go`,
+`taktician.go` or the rule panics. -/
+theorem bot_never_dead_minimax_partial (c : Compose.Conf) (hguard : c.guard = true) (hfix : c.bot.fixed = true)
+    (hsize : 3 ≤ c.size ∧ c.size ≤ 8) (hvar : ∀ var, confVariant c = some var → VariantTotal var)
+    (ev : Pos → Int) (sym : Pos → List Search.H) (scfg : Search.Cfg) (secs : Int)
+    (evs : List (Compose.Ev { o : Search.Oracle Move // Search.OrderOK o }))
+    (hchk : ChkOK c (minimaxOK c.bot.basis ev sym scfg)
+      (Compose.start c secs (Search.Eng.new (Search.takGame c.bot.basis ev sym) scfg)) evs) :
+    let g := Search.takGame c.bot.basis ev sym
+    let s := Compose.run c (minimaxOK c.bot.basis ev sym scfg) (Compose.start c secs (Search.Eng.new g scfg)) evs
+    ∀ e, s.dead = some e → ∃ (p : Pos) (o : Search.Oracle Move), p.cfg.size = c.size ∧ Search.OrderOK o ∧
+      EngInv c.bot.basis ev sym s.eng ∧ Search.getMove g scfg o p s.eng = .error e := by
+  intro g s e he
+  obtain ⟨call, x, lim, fl, hin, _, hrun⟩ :=
+    bot_dead_only_by_search c hguard hfix hsize hvar (minimaxOK c.bot.basis ev sym scfg) secs _ evs hchk e he
+  obtain ⟨_, _, _, _, hG⟩ := bot_inv_composed c hfix hsize (minimaxOK c.bot.basis ev sym scfg) (EngInv c.bot.basis ev sym)
+    (minimax_keeps_engInv c.bot.basis ev sym scfg c.size hsize) secs _ (engInv_new c.bot.basis ev sym scfg) evs
+  obtain ⟨_, t, ht, hpos⟩ := (lock_faithful c hfix hsize (minimaxOK c.bot.basis ev sym scfg) secs _ evs).2 call hin
+  obtain ⟨p0, _, hP0⟩ := pinv_startBot c secs hsize
+  have hA : ∀ (p : Pos) (m : Move) (q : Pos), p.cfg.size = c.size → p.apply c.bot.basis m = .ok q → q.cfg.size = c.size :=
+    fun p m q hp ha => by rw [apply_cfg ha]; exact hp
+  obtain ⟨bevs, hb⟩ := compose_refines c (minimaxOK c.bot.basis ev sym scfg) secs
+    (Search.Eng.new (Search.takGame c.bot.basis ev sym) scfg) evs
+  have hP := pinv_run hA c.bot rfl hP0 bevs
+  rw [← hb] at hP
+  refine ⟨call.pos, x.1, ?_, x.2, hG, hrun⟩
+  rw [← hpos]
+  have hmem : t ∈ thinkers s.b := List.mem_of_getElem? ht
+  unfold thinkers at hmem
+  simp only [List.mem_append, List.mem_singleton] at hmem
+  rcases hmem with hm | rfl
+  · exact hP.old t hm
+  · exact hP.cur
+
+open Ex in
+/-- non-vacuity of `bot_never_dead_guarded` / `bot_dead_only_by_search`: the stale-thinker schedule (centre rule, guard on)
+meets every hypothesis — the rule is total, the verdicts of the schedule are sane — and nobody dies; the double-stack
+resume schedule fails exactly `VariantTotal` and does die -/
+example :
+    (∀ var, confVariant (conf .black 5 (.friendly (some .center)) true) = some var → VariantTotal var) ∧
+    ChkOK (conf .black 5 (.friendly (some .center)) true) stubSearcher
+      (Compose.start (conf .black 5 (.friendly (some .center)) true) 600 ()) staleEvs ∧
+    (go (conf .black 5 (.friendly (some .center)) true) staleEvs).dead = none ∧
+    confVariant (conf .white 4 (.friendly (some .doubleStack)) true) = some .doubleStack ∧ ¬ VariantTotal .doubleStack := by
+  refine ⟨?_, ?_, stale_thinker_fixed.1, rfl, not_variantTotal_doubleStack⟩
+  · intro var hv
+    have : var = .center := by
+      have h : some Variant.center = some var := hv
+      injection h with h; exact h.symm
+    rw [this]; exact variantTotal_center
+  · exact chkOK_of_noAsk _ _ _ _ (by decide)
+
 end C07
